@@ -168,6 +168,28 @@ def main():
                 break
     except Exception as e:  # noqa
         fail("C10:pickle-restored-elsewhere:core:raises", "the cross-interpreter pickle probe raised %s: %s" % (type(e).__name__, e))
+    # a table name identifies the table (atoms pickle by it): a second table cannot take a name that is in use - or, if it may,
+    # atoms of the first still come back as themselves
+    try:
+        import pickle as _pk, copy as _cp
+        t1 = tables["q2"]
+        a1 = t1.Fe[56].ion[2]
+        t1.Fe._mass = 1000.0
+        second = None
+        try:
+            second = core.PeriodicTable("q2")
+        except Exception:  # noqa
+            pass
+        if second is not None:
+            b1 = _pk.loads(_pk.dumps(a1))
+            c1 = _cp.deepcopy(t1.Fe)
+            if b1 is not a1 or c1 is not t1.Fe:
+                fail("C10:pickle-restored-elsewhere:core:duplicate-name", "after a second PeriodicTable('q2') was created, pickle/deepcopy of atoms of the "
+                     "first 'q2' give other objects (Fe mass %r instead of 1000.0)" % getattr(c1, "mass", None),
+                     history_text=["q2 = PeriodicTable('q2')", "PeriodicTable('q2') again", "pickle round trip of q2.Fe[56].ion[2]"])
+            core.PRIVATE_TABLES["q2"] = t1
+    except Exception as e:  # noqa
+        fail("C10:pickle-restored-elsewhere:core:raises", "the duplicate-name probe raised %s: %s" % (type(e).__name__, e))
     try:
         nlazy = lazy_breadth(fail)
     except Exception as e:  # noqa
